@@ -57,6 +57,9 @@ func isNil(x any) bool {
 
 // ghost call trace (evaluated by the verifier per path; inert when executed)
 func ncalls(name string) int                        { return 0 }
+type ev struct{}
+func fullSeq(evs ...ev) bool { return true }
+func evCall(name string) ev  { return ev{} }
 func callArg[T any](name string, k int, i int) T    { var z T; return z }
 func atCall(name string, k int, cond bool) bool     { return true }
 func callOrder(a string, i int, b string, j int) bool { return true }
@@ -354,7 +357,7 @@ func lemma_parseFrame_trans(p *Parser) {
 //@   ensures [range] p.errors[len(old(p.errors))].Range == Range{Start: p.CurrentToken.Start, End: p.CurrentToken.End}
 
 //@ func (p *Parser) ExpectToken(t)
-//@   props C11 C16
+//@   props C11 C16 C12
 //@   use parseFrame ctxStable
 //@   rank 1
 //@   ensures [ok] implies(result, eq(p.CurrentToken, old(p.PeekToken)) && p.CurrentToken.Type == t && len(p.errors) == len(old(p.errors)))
@@ -365,7 +368,7 @@ func lemma_parseFrame_trans(p *Parser) {
 // terminate without consuming; after a line break a token that can only begin a statement terminates; on the same
 // line anything else is an error in strict mode. Tolerant mode never records an error here and always continues.
 //@ func (p *Parser) ExpectSemicolonASI()
-//@   props C11 C16 C13 C02 C06 C03
+//@   props C11 C16 C13 C02 C06 C03 C12
 //@   use parseFrame ctxStable
 //@   rank 1
 //@   ensures [fail] implies(!result, len(p.errors) == len(old(p.errors))+1)
@@ -398,21 +401,23 @@ func lemma_parseFrame_trans(p *Parser) {
 //@   ensures [result@C02,C04] result == callResult[ast.Expression]("(*Parser).ParseRemainingExpressionWithPrecedence", 0)
 
 //@ func (p *Parser) ParseLetStatement()
-//@   props C11 C16 C01 C13
+//@   props C11 C16 C01 C13 C12
 //@   use parseFrame ctxStable viaSlot errorSites
 //@   rank 80
 //@   ensures [wf@C11] implies(len(p.errors) == len(old(p.errors)) && result != nil, result.Name != nil && (result.Value == nil || !isNil(result.Value)))
 //@   ensures [node@C01,C08,C15] implies(result != nil, eq(result.Token, old(p.CurrentToken)) && result.Name != nil && result.Name.Value == result.Name.Token.Literal)
 //@   ensures [err-on-nil] implies(result == nil, len(p.errors) > len(old(p.errors)))
+//@   ensures [demands@C12] implies(len(p.errors) == len(old(p.errors)) && result != nil, ncalls("(*Parser).ExpectToken") == 1 && callArg[token.Type]("(*Parser).ExpectToken", 0, 1) == token.IDENT)
 
 //@ func (p *Parser) ParseLetExpression()
-//@   props C11 C16 C13
+//@   props C11 C16 C13 C12
 //@   use parseFrame ctxStable exprResult errorSites
 //@   rank 75
 //@   ensures [wf@C11] implies(len(p.errors) == len(old(p.errors)) && !isNil(result), isType[*ast.LetExpression](result) && result.(*ast.LetExpression).Name != nil && (result.(*ast.LetExpression).Value == nil || !isNil(result.(*ast.LetExpression).Value)))
+//@   ensures [demands@C12] implies(len(p.errors) == len(old(p.errors)) && !isNil(result), ncalls("(*Parser).ExpectToken") == 1 && callArg[token.Type]("(*Parser).ExpectToken", 0, 1) == token.IDENT)
 
 //@ func (p *Parser) ParseFunctionStatement()
-//@   props C11 C16 C01 C13
+//@   props C11 C16 C01 C13 C12
 //@   use parseFrame viaSlot errorSites
 //@   rank 80
 //@   ensures [wf@C11] implies(len(p.errors) == len(old(p.errors)) && result != nil, result.Name != nil && result.Body != nil && forall(0, len(result.Parameters), func(k int) bool { return result.Parameters[k] != nil }))
@@ -421,15 +426,18 @@ func lemma_parseFrame_trans(p *Parser) {
 //@   atcall (*Parser).ExpectToken [ctx.stable@C16] sameCtx(p.contextStack, old(p.contextStack))
 //@   atcall (*Parser).ParseFunctionParameters [ctx.stable@C16] sameCtx(p.contextStack, old(p.contextStack))
 //@   ensures [err-on-nil] implies(result == nil, len(p.errors) > len(old(p.errors)))
+//@   ensures [demands@C12] implies(len(p.errors) == len(old(p.errors)) && result != nil, ncalls("(*Parser).ExpectToken") == 3 && callArg[token.Type]("(*Parser).ExpectToken", 0, 1) == token.IDENT && callArg[token.Type]("(*Parser).ExpectToken", 1, 1) == token.LPAREN && callArg[token.Type]("(*Parser).ExpectToken", 2, 1) == token.LBRACE)
 
 //@ func (p *Parser) ParseFunctionParameters()
-//@   props C11 C16 C13
+//@   props C11 C16 C13 C12
 //@   use parseFrame ctxStable errorSites
 //@   rank 30
 //@   ensures [wf@C11] forall(0, len(result), func(k int) bool { return result[k] != nil })
 //@   loop 1 invariant [wf@C11] forall(0, len(identifiers), func(k int) bool { return identifiers[k] != nil })
 //@   loop 1 invariant [frame] parserInv(p) && sameCtx(p.contextStack, old(p.contextStack)) && p.currentExpressionPrecedence == old(p.currentExpressionPrecedence) && isPrefixErr(old(p.errors), p.errors) && parserMeasure(p) <= old(parserMeasure(p))
 //@   loop 1 decreases parserMeasure(p)
+//@   loop 1 each [demands@C12] fullSeq(evCall("(*Parser).NextToken"), evCall("(*Parser).ExpectToken")) && callArg[token.Type]("(*Parser).ExpectToken", 1, 1) == token.IDENT
+//@   ensures [demands@C12] implies(len(p.errors) == len(old(p.errors)) && result != nil && old(p.PeekToken.Type) != token.RPAREN, ncalls("(*Parser).ExpectToken") == 2 && callArg[token.Type]("(*Parser).ExpectToken", 0, 1) == token.IDENT && callArg[token.Type]("(*Parser).ExpectToken", 1, 1) == token.RPAREN)
 
 // Restricted production (ECMA-262 12.10.1): no operand is parsed when the next token is on a new line.
 //@ func (p *Parser) ParseReturnStatement()
@@ -442,28 +450,31 @@ func lemma_parseFrame_trans(p *Parser) {
 //@   ensures [err-on-nil] implies(result == nil, len(p.errors) > len(old(p.errors)))
 
 //@ func (p *Parser) ParseIfStatement()
-//@   props C11 C16 C01 C13
+//@   props C11 C16 C01 C13 C12
 //@   use parseFrame ctxStable viaSlot errorSites
 //@   rank 80
 //@   ensures [wf@C11] implies(len(p.errors) == len(old(p.errors)) && result != nil, !isNil(result.Condition) && !isNil(result.ThenBranch) && (result.ElseBranch == nil || !isNil(result.ElseBranch)))
 //@   ensures [node@C01,C08,C15] implies(result != nil, eq(result.Token, old(p.CurrentToken)))
 //@   ensures [err-on-nil] implies(result == nil, len(p.errors) > len(old(p.errors)))
+//@   ensures [demands@C12] implies(len(p.errors) == len(old(p.errors)) && result != nil, ncalls("(*Parser).ExpectToken") == 2 && callArg[token.Type]("(*Parser).ExpectToken", 0, 1) == token.LPAREN && callArg[token.Type]("(*Parser).ExpectToken", 1, 1) == token.RPAREN)
 
 //@ func (p *Parser) ParseWhileStatement()
-//@   props C11 C16 C01 C13
+//@   props C11 C16 C01 C13 C12
 //@   use parseFrame ctxStable viaSlot errorSites
 //@   rank 80
 //@   ensures [wf@C11] implies(len(p.errors) == len(old(p.errors)) && result != nil, !isNil(result.Condition) && !isNil(result.Body))
 //@   ensures [node@C01,C08,C15] implies(result != nil, eq(result.Token, old(p.CurrentToken)))
 //@   ensures [err-on-nil] implies(result == nil, len(p.errors) > len(old(p.errors)))
+//@   ensures [demands@C12] implies(len(p.errors) == len(old(p.errors)) && result != nil, ncalls("(*Parser).ExpectToken") == 2 && callArg[token.Type]("(*Parser).ExpectToken", 0, 1) == token.LPAREN && callArg[token.Type]("(*Parser).ExpectToken", 1, 1) == token.RPAREN)
 
 //@ func (p *Parser) ParseForStatement()
-//@   props C11 C16 C01 C13
+//@   props C11 C16 C01 C13 C12
 //@   use parseFrame ctxStable viaSlot errorSites
 //@   rank 80
 //@   ensures [wf@C11] implies(len(p.errors) == len(old(p.errors)) && result != nil, (result.Init == nil || !isNil(result.Init)) && (result.Condition == nil || !isNil(result.Condition)) && (result.Update == nil || !isNil(result.Update)) && !isNil(result.Body))
 //@   ensures [node@C01,C08,C15] implies(result != nil, eq(result.Token, old(p.CurrentToken)))
 //@   ensures [err-on-nil] implies(result == nil, len(p.errors) > len(old(p.errors)))
+//@   ensures [demands@C12] implies(len(p.errors) == len(old(p.errors)) && result != nil, ncalls("(*Parser).ExpectToken") == 4 && callArg[token.Type]("(*Parser).ExpectToken", 0, 1) == token.LPAREN && callArg[token.Type]("(*Parser).ExpectToken", 1, 1) == token.SEMICOLON && callArg[token.Type]("(*Parser).ExpectToken", 2, 1) == token.SEMICOLON && callArg[token.Type]("(*Parser).ExpectToken", 3, 1) == token.RPAREN)
 
 //@ func (p *Parser) ParseBlockStatement()
 //@   props C11 C16 C13 C01 C15 C02
@@ -475,7 +486,7 @@ func lemma_parseFrame_trans(p *Parser) {
 //@   loop 1 invariant [block] block != nil && forall(0, len(block.Statements), func(i int) bool { return !isNil(block.Statements[i]) })
 //@   ensures [nonnil] result != nil
 //@   ensures [no-nil-entries@C11] forall(0, len(result.Statements), func(i int) bool { return !isNil(result.Statements[i]) })
-//@   ensures [unclosed@C13,C11] ncalls("(*Parser).AddError") == ite(!p.tolerantMode && p.CurrentToken.Type != token.RBRACE, 1, 0)
+//@   ensures [unclosed@C13,C11,C12] ncalls("(*Parser).AddError") == ite(!p.tolerantMode && p.CurrentToken.Type != token.RBRACE, 1, 0)
 //@   ensures [rbrace@C01,C15,C02] eq(result.RBrace, p.CurrentToken)
 
 //@ func (p *Parser) ParseStatement()
@@ -494,7 +505,7 @@ func lemma_parseFrame_trans(p *Parser) {
 //@   props C11 C16 C04 C02
 //@   use parseFrame ctxStable exprResult
 //@   rank 55
-//@   ensures [unknown-prefix@C11] implies(!old(has(p.prefixParseFns, p.CurrentToken.Type)), isNil(result) && len(p.errors) == len(old(p.errors))+1)
+//@   ensures [unknown-prefix@C11,C12] implies(!old(has(p.prefixParseFns, p.CurrentToken.Type)), isNil(result) && len(p.errors) == len(old(p.errors))+1)
 //@   ensures [dispatch@C02,C04] implies(old(has(p.prefixParseFns, p.CurrentToken.Type)) && ncalls("slotPrefixFn") == 1, result == callResult[ast.Expression]("slotPrefixFn", 0))
 //@   atcall slotPrefixFn [first-token@C04] eq(p.CurrentToken, old(p.CurrentToken)) && eq(p.PeekToken, old(p.PeekToken))
 //@   assumes [eof.no-prefix] p.prefixParseFns[token.EOF] == nil
@@ -609,12 +620,13 @@ func lemma_parseFrame_trans(p *Parser) {
 //@   ensures [no-token@C02] ncalls("(*Parser).NextToken") == 0 && ncalls("slotExprFn") == 0 && lexer.LexPos(p.lexer) == old(lexer.LexPos(p.lexer))
 
 //@ func (p *Parser) ParseGroupedExpression()
-//@   props C11 C16 C01 C02 C13
+//@   props C11 C16 C01 C02 C13 C12
 //@   use parseFrame ctxStable exprResult errorSites atToken
 //@   rank 45
 //@   ensures [wf@C11] implies(len(p.errors) == len(old(p.errors)) && !isNil(result), !isNil(result.(*ast.GroupedExpression).Expression))
 //@   ensures [inner.level@C02] ncalls("(*Parser).ParseExpression") == 1 && ncalls("slotExprFn") == 0
 //@   ensures [node@C01,C08,C15] implies(!isNil(result), isType[*ast.GroupedExpression](result) && eq(result.(*ast.GroupedExpression).Token, old(p.CurrentToken)) && result.(*ast.GroupedExpression).Expression == callResult[ast.Expression]("(*Parser).ParseExpression", 0) && eq(result.(*ast.GroupedExpression).RParen, p.CurrentToken) && p.CurrentToken.Type == token.RPAREN)
+//@   ensures [demands@C12] implies(len(p.errors) == len(old(p.errors)) && !isNil(result), ncalls("(*Parser).ExpectToken") == 1 && callArg[token.Type]("(*Parser).ExpectToken", 0, 1) == token.RPAREN)
 
 //@ func (p *Parser) ParseArrayLiteral()
 //@   props C11 C16 C01 C13
@@ -624,7 +636,7 @@ func lemma_parseFrame_trans(p *Parser) {
 //@   ensures [node@C01,C08,C15] isType[*ast.ArrayLiteral](result) && !isNil(result) && eq(result.(*ast.ArrayLiteral).Token, old(p.CurrentToken)) && eq(result.(*ast.ArrayLiteral).RBracket, p.CurrentToken)
 
 //@ func (p *Parser) ParseObjectLiteral()
-//@   props C11 C16 C01 C13
+//@   props C11 C16 C01 C13 C12
 //@   use parseFrame ctxStable exprResult errorSites atToken
 //@   rank 45
 //@   ensures [wf@C11] implies(len(p.errors) == len(old(p.errors)) && !isNil(result), forall(0, len(result.(*ast.ObjectLiteral).Properties), func(k int) bool { return !isNil(result.(*ast.ObjectLiteral).Properties[k].Key) && !isNil(result.(*ast.ObjectLiteral).Properties[k].Value) }))
@@ -632,9 +644,11 @@ func lemma_parseFrame_trans(p *Parser) {
 //@   ensures [node@C01,C08,C15] implies(!isNil(result), isType[*ast.ObjectLiteral](result) && eq(result.(*ast.ObjectLiteral).Token, old(p.CurrentToken)))
 //@   loop 1 invariant [frame] parserInv(p) && sameCtx(p.contextStack, old(p.contextStack)) && p.currentExpressionPrecedence == old(p.currentExpressionPrecedence) && isPrefixErr(old(p.errors), p.errors) && obj != nil && parserMeasure(p) < old(parserMeasure(p))
 //@   loop 1 decreases parserMeasure(p)
+//@   loop 1 each [demands@C12] ncalls("(*Parser).ExpectToken") == 1 && callArg[token.Type]("(*Parser).ExpectToken", 0, 1) == token.COLON
+//@   ensures [demands@C12] implies(len(p.errors) == len(old(p.errors)) && !isNil(result) && old(p.PeekToken.Type) != token.RBRACE, ncalls("(*Parser).ExpectToken") == 2 && callArg[token.Type]("(*Parser).ExpectToken", 0, 1) == token.COLON && callArg[token.Type]("(*Parser).ExpectToken", 1, 1) == token.RBRACE)
 
 //@ func (p *Parser) ParseFunctionExpression()
-//@   props C11 C16 C13 C01
+//@   props C11 C16 C13 C01 C12
 //@   use parseFrame exprResult viaSlot errorSites atToken
 //@   rank 45
 //@   ensures [wf@C11] implies(len(p.errors) == len(old(p.errors)) && !isNil(result), result.(*ast.FunctionExpression).Body != nil && forall(0, len(result.(*ast.FunctionExpression).Parameters), func(k int) bool { return result.(*ast.FunctionExpression).Parameters[k] != nil }))
@@ -642,6 +656,7 @@ func lemma_parseFrame_trans(p *Parser) {
 //@   atcall (*Parser).ParseBlockStatement [ctx.function@C16] sameCtx(p.contextStack, push(old(p.contextStack), FunctionContext))
 //@   atcall (*Parser).ExpectToken [ctx.stable@C16] sameCtx(p.contextStack, old(p.contextStack))
 //@   atcall (*Parser).ParseFunctionParameters [ctx.stable@C16] sameCtx(p.contextStack, old(p.contextStack))
+//@   ensures [demands@C12] implies(len(p.errors) == len(old(p.errors)) && !isNil(result), ncalls("(*Parser).ExpectToken") == 2 && callArg[token.Type]("(*Parser).ExpectToken", 0, 1) == token.LPAREN && callArg[token.Type]("(*Parser).ExpectToken", 1, 1) == token.LBRACE)
 
 // Binary operators are left associative: the right operand is parsed at the operator's own level, read from the
 // per-parser table while the operator is the current token.
@@ -687,21 +702,23 @@ func lemma_parseFrame_trans(p *Parser) {
 //@   ensures [node@C01,C08,C15] isType[*ast.MemberExpression](result) && !isNil(result) && eq(result.(*ast.MemberExpression).Token, old(p.CurrentToken)) && result.(*ast.MemberExpression).Object == left && !result.(*ast.MemberExpression).Computed && result.(*ast.MemberExpression).Property == callResult[ast.Expression]("slotExprFn", 0)
 
 //@ func (p *Parser) ParseComputedMemberExpression(left)
-//@   props C11 C16 C02 C01 C13
+//@   props C11 C16 C02 C01 C13 C12
 //@   use parseFrame ctxStable exprResult infixResult errorSites atToken
 //@   rank 45
 //@   ensures [wf@C11] implies(len(p.errors) == len(old(p.errors)) && !isNil(left) && !isNil(result), !isNil(result.(*ast.MemberExpression).Object) && !isNil(result.(*ast.MemberExpression).Property))
 //@   ensures [operand.level@C02] ncalls("(*Parser).ParseExpression") == 1 && ncalls("slotExprFn") == 0
 //@   ensures [node@C01,C08,C15] implies(!isNil(result), isType[*ast.MemberExpression](result) && eq(result.(*ast.MemberExpression).Token, old(p.CurrentToken)) && result.(*ast.MemberExpression).Object == left && result.(*ast.MemberExpression).Computed && result.(*ast.MemberExpression).Property == callResult[ast.Expression]("(*Parser).ParseExpression", 0))
+//@   ensures [demands@C12] implies(len(p.errors) == len(old(p.errors)) && !isNil(result), ncalls("(*Parser).ExpectToken") == 1 && callArg[token.Type]("(*Parser).ExpectToken", 0, 1) == token.RBRACKET)
 
 //@ func (p *Parser) ParseExpressionList(end)
-//@   props C11 C16 C13
+//@   props C11 C16 C13 C12
 //@   use parseFrame ctxStable errorSites atToken
 //@   rank 44
 //@   ensures [wf@C11] implies(len(p.errors) == len(old(p.errors)), forall(0, len(result), func(k int) bool { return !isNil(result[k]) }))
 //@   loop 1 invariant [wf@C11] implies(len(p.errors) == len(old(p.errors)), forall(0, len(args), func(k int) bool { return !isNil(args[k]) }))
-//@   loop 1 invariant [frame] parserInv(p) && sameCtx(p.contextStack, old(p.contextStack)) && p.currentExpressionPrecedence == old(p.currentExpressionPrecedence) && isPrefixErr(old(p.errors), p.errors) && parserMeasure(p) <= old(parserMeasure(p))
+//@   loop 1 invariant [frame] parserInv(p) && sameCtx(p.contextStack, old(p.contextStack)) && p.currentExpressionPrecedence == old(p.currentExpressionPrecedence) && isPrefixErr(old(p.errors), p.errors) && parserMeasure(p) < old(parserMeasure(p))
 //@   loop 1 decreases parserMeasure(p)
+//@   ensures [demands@C12] implies(len(p.errors) == len(old(p.errors)) && result != nil && old(p.PeekToken.Type) != end, ncalls("(*Parser).ExpectToken") == 1 && callArg[token.Type]("(*Parser).ExpectToken", 0, 1) == end)
 
 //@ func (p *Parser) ParseProgram()
 //@   props C11 C16 C13
